@@ -28,3 +28,6 @@ OBLIGATIONS += [
   O('C17.c-inflatepaths64', 'c17_export.cpp', 'harness_inflatepaths64', replace=OFF, unwind=5, bound='all delta/miter/arc doubles, join/end bytes, reverse flag', desc='InflatePaths64 forwards every argument to ClipperOffset'),
   O('C17.c-inflatepath64', 'c17_export.cpp', 'harness_inflatepaths64', defs=['SINGLE_PATH'], replace=OFF, unwind=5, bound='as above', desc='InflatePath64 forwards every argument to ClipperOffset'),
 ]
+ARGS = dict(ENG, **{'Clipper2Lib::Clipper64::BuildTree64(': 'stub_buildtree64', 'Clipper2Lib::ClipperD::BuildTreeD(': 'stub_buildtreeD', 'Clipper2Lib::ClipperD::BuildPathsD(': 'stub_buildpathsD', 'pow': 'stub_pow_w', 'ilogb': 'stub_ilogb_w'})
+OBLIGATIONS += [O('C17.c-boolean-args-%s' % nm, 'c17_export.cpp', 'harness_booleanop_args', defs=['BFN=%d' % k], replace=ARGS, unwind=19, timeout=600, bound='all cliptype/fillrule bytes, precisions -12..12, both flags; 3-point subject/open/clip', desc='%s: out-of-range precision -> -5, clip type -> -4, fill rule -> -3 before the engine is touched; every valid combination returns 0 after one Execute with that clip type / fill rule%s (also C11: error reporting at the C boundary)' % (nm, ' in tree mode' if k != 2 else '')) for k, nm in ((1, 'BooleanOp_PolyTree64'), (2, 'BooleanOpD'), (3, 'BooleanOp_PolyTreeD'))]
+
